@@ -1,4 +1,4 @@
-import Lemmas.Online.Loop
+import Lemmas.Online.Concrete
 /-!
 # C04 — a failing migration never leaves the version table out of step
 
@@ -30,6 +30,10 @@ theorem runMigrations_eq (c : Cfg) (pre : List (Stmt α)) (progs : List (List (A
   cases pre with
   | nil => simp
   | cons s r => simp
+
+theorem runMigrations_eq' (c : Cfg) (pre : List (Stmt α)) (progs : List (List (Atom α))) (db : σ) :
+    runMigrations ap c pre progs (beginTransaction c false (initSt c db)).2 = runLoop ap c progs (loopStart ap c pre db) :=
+  runMigrations_eq ap c pre progs db
 
 theorem loopStart_auto (c : Cfg) (pre : List (Stmt α)) (db : σ) : (loopStart ap c pre db).auto = none := by
   simp [loopStart]
@@ -66,8 +70,8 @@ theorem final_eq (c : Cfg) (pre : List (Stmt α)) (plan : List (Mig α)) (k pos 
     (hk : plan[k]? = some m) :
     runFinal ap c pre (oracle plan k pos) db =
       (runLoop ap c ((plan.take k).map migAtoms ++ [(migAtoms m).take pos ++ [.raise]]) (loopStart ap c pre db)).st.committed := by
-  rw [runFinal_of_raised, runMigrations_eq, oracle_eq plan k pos m hk]
-  rw [runMigrations_eq, oracle_eq plan k pos m hk]
+  rw [runFinal_of_raised, runMigrations_eq', oracle_eq plan k pos m hk]
+  rw [runMigrations_eq', oracle_eq plan k pos m hk]
   exact runLoop_raises ap c _ _ _
 
 /-- the run raises: the exception reaches the caller (it is never swallowed) -/
@@ -75,7 +79,7 @@ theorem failure_propagates (c : Cfg) (pre : List (Stmt α)) (plan : List (Mig α
     (hk : plan[k]? = some m) : runRaised ap c pre (oracle plan k pos) db = true := by
   unfold runRaised
   have := runLoop_raises ap c ((plan.take k).map migAtoms) ((migAtoms m).take pos) (loopStart ap c pre db)
-  rw [runMigrations_eq, oracle_eq plan k pos m hk]
+  rw [runMigrations_eq', oracle_eq plan k pos m hk]
   cases h : runLoop ap c ((plan.take k).map migAtoms ++ [(migAtoms m).take pos ++ [.raise]]) (loopStart ap c pre db) with
   | ok s => rw [h] at this; simp [Outcome.isRaised] at this
   | raised s => rfl
@@ -200,5 +204,130 @@ theorem never_names_failed (π : σ → ρ) (names : ρ → Nat → Prop) (e : P
     names (π (runFinal ap c pre (oracle plan k pos) db)) m.rev ↔ e := by
   obtain ⟨j, hj, h⟩ := rows_at_boundary ap π c pre plan k pos m db hk hcong hpre hbody
   rw [h]; exact hb j hj
+
+/-! ### the Bool checker that judges the implementation is implied by the theorems -/
+
+theorem imp_or {a b : Bool} (h : a = true → b = true) : (!a || b) = true := by
+  cases a <;> simp_all
+theorem imp_or2 {a b c : Bool} (h : a = true → (b || c) = true) : (!a || b || c) = true := by
+  cases a <;> simp_all
+
+/-- `Spec.Online.check` — the decidable form evaluated on the *implementation's* observation
+    by the driver — holds on the model's output for every configuration, plan, failure
+    position and start state, provided bodies/housekeeping do not write version rows
+    (`wfPlan`) and the failed revision's status is constant over the earlier boundaries
+    (`namesHyp`, evaluated on every generated case). -/
+theorem model_satisfies_check (c : Cfg) (upgrade : Bool) (parents : List (Nat × List Nat)) (pre : List (Stmt Act))
+    (plan : List (Mig Act)) (k pos : Nat) (m : Mig Act) (db : Db) (hk : plan[k]? = some m)
+    (hwf : wfPlan pre plan = true) (hn : namesHyp parents pre plan db m.rev upgrade k = true) :
+    (check c upgrade parents pre plan k pos db (runFinal applyAct c pre (oracle plan k pos) db)).holds = true := by
+  simp only [wfPlan, Bool.and_eq_true, List.all_eq_true] at hwf
+  obtain ⟨hwpre, hwplan⟩ := hwf
+  have hpre : ∀ s ∈ pre, ∀ x, (applyAct s.act x).rows = x.rows :=
+    fun s hs x => applyAct_rows_objOnly _ (hwpre s hs) x
+  have hbodyOf : ∀ m' ∈ plan, ∀ s, Atom.stmt s ∈ bodyAtoms m'.segs → ∀ x, (applyAct s.act x).rows = x.rows :=
+    fun m' hm' s hs x => applyAct_rows_objOnly _ (hwplan m' hm' _ (stmt_mem_bodyAtoms hs)) x
+  have hm : m ∈ plan := List.mem_of_getElem? hk
+  have hbody : ∀ m' ∈ plan.take k ++ [m], ∀ s, Atom.stmt s ∈ bodyAtoms m'.segs → ∀ x, (applyAct s.act x).rows = x.rows := by
+    intro m' hm'
+    rcases List.mem_append.mp hm' with h | h
+    · exact hbodyOf m' (List.mem_of_mem_take h)
+    · simp only [List.mem_singleton] at h; subst h; exact hbodyOf m' hm
+  simp only [check, hk, Verdict.holds, Bool.and_eq_true]
+  refine ⟨⟨⟨⟨?_, ?_⟩, ?_⟩, ?_⟩, ?_⟩
+  · obtain ⟨j, hj, h⟩ := rows_at_boundary applyAct Db.rows c pre plan k pos m db hk applyAct_rows_cong hpre hbody
+    exact boundaryRows_of pre plan db _ k j hj h.symm
+  · obtain ⟨j, hj, h⟩ := rows_at_boundary applyAct Db.rows c pre plan k pos m db hk applyAct_rows_cong hpre hbody
+    rw [h, namesHyp_at parents pre plan db m.rev upgrade k j hj hn]
+    simp
+  · apply imp_or; intro hc
+    simp only [Bool.and_eq_true] at hc
+    obtain ⟨⟨h1, h2⟩, h5, h6⟩ := hc
+    have hreg : SingleRegime c := by
+      unfold SingleRegime
+      cases hx : c.external <;> cases ht : c.tddl <;> cases hp : c.perMig <;> simp_all
+    rw [single_txn applyAct c pre plan k pos m db (by simpa using h1) hreg hk
+      (fun m' hm' => by
+        simp only [List.all_eq_true, List.mem_map] at h5
+        exact h5 _ ⟨m', hm', rfl⟩) h6]
+    simp
+  · apply imp_or2; intro hc
+    simp only [Bool.and_eq_true] at hc
+    obtain ⟨⟨⟨h1, h3⟩, h4⟩, h5⟩ := hc
+    have hreg : PerMigRegime c := by
+      unfold PerMigRegime
+      cases hx : c.external <;> cases ht : c.tddl <;> cases hp : c.perMig <;> simp_all
+    rw [per_migration applyAct c pre plan k pos m db (by simpa using h1) hreg hk h5]
+    by_cases hk0 : k = 0
+    · subst hk0; simp [applied, planActs, applyAll]
+    · simp [hk0]
+  · apply imp_or; intro hc
+    simp only [Bool.and_eq_true] at hc
+    rw [nontransactional applyAct Db.rows c pre plan k pos m db (by simpa using hc.1) (by simpa using hc.2) hk hpre (hbodyOf m hm)]
+    simp
+
+/-- **Earlier migrations are recorded exactly when their effects are durable** — the
+    effects half, for every backend mode (also without transactional DDL) in the
+    per-migration regime: an object that neither the housekeeping nor the *failed*
+    migration's body mentions exists after the failure iff it exists after the completed
+    migrations `0 … k-1`.  (`recorded_exactly_completed` with the observation
+    "object `n` exists"; together with `nontransactional` for the rows.) -/
+theorem earlier_effects_durable (c : Cfg) (pre : List (Stmt Act)) (plan : List (Mig Act)) (k pos : Nat)
+    (m : Mig Act) (db : Db) (n : Nat) (hreg : PerMigRegime c) (hk : plan[k]? = some m)
+    (hpre : ∀ s ∈ pre, touches s.act n = false)
+    (hbody : ∀ a ∈ bodyActs m.segs, touches a n = false) :
+    n ∈ (runFinal applyAct c pre (oracle plan k pos) db).objs ↔ n ∈ (stateAt applyAct pre plan k db).objs := by
+  have := recorded_exactly_completed applyAct (fun x : Db => decide (n ∈ x.objs)) c pre plan k pos m db hreg hk
+    (fun s hs x => applyAct_objs_untouched _ n (hpre s hs) x)
+    (fun s hs x => applyAct_objs_untouched _ n (hbody _ (stmt_mem_bodyAtoms hs)) x)
+  simpa using this
+
+/-! ### non-vacuity: the hypotheses are satisfiable, the checker rejects bad observations -/
+
+section Examples
+
+/-- `a <- b`: `a` creates a table, inserts a row, creates a table; `b` likewise -/
+def exPlan : List (Mig Act) :=
+  [ { rev := 0, segs := [.plain [⟨.ddl, .add 0⟩, ⟨.dml, .add 1⟩, ⟨.ddl, .add 2⟩]], vstmts := [.vins 0] },
+    { rev := 1, segs := [.plain [⟨.ddl, .add 4⟩, ⟨.dml, .add 3⟩]], vstmts := [.vupd 0 1] } ]
+def exPre : List (Stmt Act) := [⟨.ddl, .createVT⟩]
+def exDb : Db := { objs := [], rows := [], vt := false }
+def exParents : List (Nat × List Nat) := [(0, []), (1, [0])]
+def cfg (md : Mode) (tddl perMig : Bool) : Cfg := { mode := md, tddl := tddl, perMig := perMig, external := false }
+
+-- migration `b` fails after its first statement
+-- transactional DDL, one transaction: everything as before (theorem `single_txn` applies: no autocommit block)
+example : runFinal applyAct (cfg .transactional true false) exPre (oracle exPlan 1 1) exDb = exDb := by decide
+-- transactional DDL, per migration: `a` applied and recorded, nothing of `b`
+example : runFinal applyAct (cfg .transactional true true) exPre (oracle exPlan 1 1) exDb =
+    { objs := [0, 1, 2], rows := [0], vt := true } := by decide
+-- sqlite3 legacy mode, `transactional_ddl` false: `a` recorded, `b`'s first table is durable
+example : runFinal applyAct (cfg .pysqlite false false) exPre (oracle exPlan 1 1) exDb =
+    { objs := [0, 1, 2, 4], rows := [0], vt := true } := by decide
+-- the hypotheses of `model_satisfies_check` hold for this plan
+example : wfPlan exPre exPlan = true ∧ namesHyp exParents exPre exPlan exDb 1 true 1 = true := by decide
+-- the checker rejects an observation that names the failed revision ...
+example : (check (cfg .pysqlite false false) true exParents exPre exPlan 1 1 exDb
+    { objs := [0, 1, 2, 4], rows := [1], vt := true }).holds = false := by decide
+-- ... one that lost the completed migration's row ...
+example : (check (cfg .pysqlite false false) true exParents exPre exPlan 1 1 exDb
+    { objs := [0, 1, 2, 4], rows := [], vt := true }).holds = false := by decide
+-- ... and, with real transactional DDL, one in which the failed migration left a trace
+example : (check (cfg .transactional true true) true exParents exPre exPlan 1 1 exDb
+    { objs := [0, 1, 2, 4], rows := [0], vt := true }).holds = false := by decide
+
+/-- Why `single_txn` excludes autocommit blocks: `autocommit_block` commits the enclosing
+    transaction *by design* (documented warning in its docstring).  Here migration `b`
+    opens one and fails afterwards: `a` stays applied **and recorded**, `b`'s statements up
+    to the end of the block stay — the version table is still not out of step
+    (`rows_at_boundary`, `never_names_failed` cover this case), but "as before the command"
+    does not hold. -/
+theorem single_txn_autocommit_block_commits :
+    runFinal applyAct (cfg .transactional true false) exPre
+      (oracle [exPlan[0], { rev := 1, segs := [.plain [⟨.ddl, .add 4⟩], .auto [⟨.ddl, .add 6⟩], .plain [⟨.dml, .add 3⟩]],
+                            vstmts := [.vupd 0 1] }] 1 4) exDb
+      = { objs := [0, 1, 2, 4, 6], rows := [0], vt := true } := by decide
+
+end Examples
 
 end C04
